@@ -352,6 +352,30 @@ neutral("N.quiet-inline", "SetQuietly arm without the temporary",
 neutral("N.skip-via-saturating", "oversized arm: remainder computed with saturating_sub",
         (CONN, "let skip = (body_length - buffered) as u32;", "let skip = body_length.saturating_sub(buffered) as u32;"))
 
+
+neutral("N.flush-deadline-form", "delayed flush written with absolute deadlines (same behaviour)",
+        (STORE, "                let age = now.saturating_sub(value.header.timestamp);\n                let time_to_live = age\n                    .saturating_add(header.time_to_live as u64)\n                    .min(u32::MAX as u64) as u32;\n                if value.header.time_to_live == 0 || time_to_live < value.header.time_to_live {\n                    value.header.time_to_live = time_to_live;\n                }", "                let ts = value.header.timestamp.min(now);\n                let deadline = now.saturating_add(header.time_to_live as u64);\n                let own = ts.saturating_add(value.header.time_to_live as u64);\n                if value.header.time_to_live == 0 || deadline < own {\n                    value.header.time_to_live = (deadline - ts).min(u32::MAX as u64) as u32;\n                }"))
+neutral("N.expiry-predicate-order", "lazy-expiry re-validation compares timestamp first",
+        (STORE, "            stored.header.cas == record.header.cas\n                && stored.header.timestamp == record.header.timestamp", "            stored.header.timestamp == record.header.timestamp\n                && record.header.cas == stored.header.cas"))
+neutral("N.append-via-vec", "append builds the value in a Vec",
+        (MEMC, "                let mut value =\n                    BytesMut::with_capacity(record.value.len() + new_record.value.len());\n                value.extend_from_slice(&record.value);\n                value.extend_from_slice(&new_record.value);\n                record.value = value.freeze();\n                self.set(key, record)", "                let mut value: Vec<u8> = Vec::with_capacity(record.value.len() + new_record.value.len());\n                value.extend_from_slice(&record.value);\n                value.extend_from_slice(&new_record.value);\n                record.value = Bytes::from(value);\n                self.set(key, record)"))
+neutral("N.policy-delete-match", "RandomPolicy::delete with match instead of if let",
+        (POLICY, "        if let Ok(record) = &result {\n            self.decr_mem_usage(record.len() as u64);\n        }\n        result", "        match &result {\n            Ok(record) => {\n                self.decr_mem_usage(record.len() as u64);\n            }\n            Err(_) => {}\n        }\n        result"))
+neutral("N.oversized-method-min", "oversized arm uses usize::min method",
+        (CONN, "let buffered = cmp::min(body_length, self.buffer.len());", "let buffered = self.buffer.len().min(body_length);"))
+neutral("N.decode-len-compare-flipped", "decode compares src.len() < body_length",
+        (CODEC, "        if (self.header.body_length as usize) > src.len() {\n            return Ok(None);", "        if src.len() < (self.header.body_length as usize) {\n            return Ok(None);"))
+neutral("N.request-valid-reordered", "request_valid tests in another order and with <=",
+        (CODEC, "        if self.header.extras_length > 20 {\n            return false;\n        }\n\n        if self.header.key_length > 250 {\n            return false;\n        }", "        if self.header.key_length >= 251 {\n            return false;\n        }\n\n        if !(self.header.extras_length <= 20) {\n            return false;\n        }"))
+neutral("N.handler-get-key-len-once", "hit response computes key length once",
+        (HANDLER, "                response_header.body_length =\n                    record.value.len() as u32 + EXTRAS_LENGTH as u32 + key.len() as u32;\n                response_header.key_length = key.len() as u16;", "                let key_len = key.len();\n                response_header.key_length = key_len as u16;\n                response_header.body_length =\n                    key_len as u32 + record.value.len() as u32 + EXTRAS_LENGTH as u32;"))
+neutral("N.client-drop-block", "Client::drop with a local binding",
+        (CLIENT, "        self.limit_connections.add_permits(1);", "        let sem = &self.limit_connections;\n        sem.add_permits(1);"))
+neutral("N.set-early-return", "MemoryStore::set: unconditional path first with early return",
+        (STORE, "    fn set(&self, key: KeyType, mut record: Record) -> Result<SetStatus> {\n        //trace!(\"Set: {:?}\", &record.header);\n        if record.header.cas > 0 {", "    fn set(&self, key: KeyType, mut record: Record) -> Result<SetStatus> {\n        if record.header.cas == 0 {\n            let cas = self.get_cas_id();\n            record.header.cas = cas;\n            record.header.timestamp = self.timer.timestamp();\n            self.memory.insert(key, record);\n            return Ok(SetStatus { cas });\n        }\n        if record.header.cas > 0 {"))
+neutral("N.add-delta-match", "add_delta's increment written with match on the flag",
+        (MEMC, "                        if increment {\n                            value = value.wrapping_add(delta.delta);\n                        } else if delta.delta > value {\n                            value = 0;\n                        } else {\n                            value -= delta.delta;\n                        }", "                        value = match increment {\n                            true => value.wrapping_add(delta.delta),\n                            false => value.saturating_sub(delta.delta),\n                        };"))
+
 json.dump(S, open(os.path.join(HERE, "seeds.json"), "w"), indent=1)
 json.dump(N, open(os.path.join(HERE, "neutral.json"), "w"), indent=1)
 print(len(S), "seeds", len(N), "neutral")
